@@ -235,7 +235,11 @@ func main() {
 	jobs := flag.Int("j", 16, "parallel workers")
 	known := flag.String("known", "", "known findings file")
 	cpuprof := flag.String("cpuprofile", "", "write cpu profile (worker)")
+	racep := flag.Bool("racepass", false, "free-running pass (build with -race)")
 	flag.Parse()
+	if *racep {
+		os.Exit(racePass(*tier))
+	}
 	if os.Getenv("BPX_MEMSTATS") == "2" {
 		go func() {
 			for {
@@ -591,6 +595,7 @@ func parent(prop, tier, filter string, boundOverride int, budget time.Duration, 
 				"scenarios":                     perScenario,
 				"step_caps_hit":                 stepcaps,
 				"exhaustive":                    exhaustive && stepcaps == 0,
+				"race_pass":                     readRacePass(),
 				"explanation":                   "stateless model checking of the real batch processor (sources rewritten syntactically onto the vs scheduler); states = distinct Mazurkiewicz-trace fingerprints at choice points, transitions = scheduler steps, traces_validated_against_impl = executions of the implementation (there is no separate model)",
 			},
 			"assumptions": []string{
@@ -636,4 +641,16 @@ func uniq(in []string) []string {
 		}
 	}
 	return out
+}
+
+func readRacePass() any {
+	if p := os.Getenv("RACEPASS_OUT"); p != "" {
+		if b, err := os.ReadFile(p); err == nil {
+			var m map[string]any
+			json.Unmarshal(b, &m)
+			m["note"] = "free-running -race build of the same processor configurations and request shapes (dynamic detector, sampled schedules); decides only the data-race clause of C11"
+			return m
+		}
+	}
+	return nil
 }
